@@ -383,4 +383,32 @@ def r4_stub(chk):
     chk.ob('C10.R4', 'StubSearcher.__init__/list', ok, where(mod, init), 'fixed list must be the names given')
 
 
-RULES = [r1_searcher_protocol, r2_nodeps_filter, r3_file_searchers, r4_stub]
+def r5_package_delegation(chk):
+    model = chk.model
+    ci = model.cls('pysmi/searcher/pypackage.py', 'PyPackageSearcher')
+    o, fn = ci.find_method('fileExists')
+    p = [a.arg for a in fn.args.args]
+    chk.doc('C10.R5', 'PyPackageSearcher on a directory package delegates to PyFileSearcher(<package dir>).fileExists('
+                      'name, mtime, rebuild=rebuild) with its own arguments unchanged; an unimportable package is '
+                      'not-found')
+    calls = [c for c in walk_no_nested(fn) if isinstance(c, ast.Call) and isinstance(c.func, ast.Attribute) and
+             c.func.attr == 'fileExists']
+    ok = len(calls) == 1 and isinstance(calls[0].func.value, ast.Call) and \
+        dotted_name(calls[0].func.value.func) == 'PyFileSearcher' and \
+        [norm(a) for a in calls[0].args] == [p[1], p[2]] and \
+        [(k.arg, norm(k.value)) for k in calls[0].keywords] == [('rebuild', p[3])]
+    chk.ob('C10.R5', 'PyPackageSearcher.fileExists/delegation', ok, where(ci.mod, fn), '%s' % [norm(c)[:100] for c in calls])
+    if calls:
+        st = common.stmt_of(calls[0])
+        chk.ob('C10.R5', 'PyPackageSearcher.fileExists/delegation-result', isinstance(st, ast.Return), where(ci.mod, st), '')
+        chk.ob('C10.R5', 'PyPackageSearcher.fileExists/package-dir', norm(calls[0].func.value.args[0]) ==
+               'os.path.split(p.__file__)[0]' or 'os.path.dirname' in norm(calls[0].func.value.args[0]) or
+               common.pmatch(calls[0].func.value.args[0], 'os.path.split($p.__file__)[0]') is not None, where(ci.mod, st), '')
+    hs = [h for h in walk_no_nested(fn) if isinstance(h, ast.ExceptHandler) and h.type is not None and
+          norm(h.type) == 'ImportError']
+    ok = len(hs) == 1 and isinstance(hs[0].body[-1], ast.Raise) and 'PySmiFileNotFoundError' in model.exc_ancestors(
+        ci.mod, hs[0].body[-1].exc.func if isinstance(hs[0].body[-1].exc, ast.Call) else hs[0].body[-1].exc)
+    chk.ob('C10.R5', 'PyPackageSearcher.fileExists/unimportable-not-found', ok, where(ci.mod, fn), '')
+
+
+RULES = [r1_searcher_protocol, r2_nodeps_filter, r3_file_searchers, r4_stub, r5_package_delegation]
